@@ -860,7 +860,12 @@ htp_status_t htp_connp_RES_HEADERS(htp_connp_t *connp) {
                 // connp->out_next_byte == LF
                 OUT_PEEK_NEXT(connp);
                 lfcrending = 0;
-                if (connp->out_next_byte == CR) {
+                if ((connp->out_current_read_offset == 1) && (connp->out_buf != NULL) && (connp->out_buf_size > 0)
+                        && (connp->out_buf[connp->out_buf_size - 1] == CR)) {
+                    // This LF is the second half of a CR LF whose CR ended the previous chunk:
+                    // a plain CR LF line ending, so a CR that follows belongs to the next line.
+                    endwithcr = 1;
+                } else if (connp->out_next_byte == CR) {
                     // hanldes LF-CR sequence as end of line
                     OUT_COPY_BYTE_OR_RETURN(connp);
                     lfcrending = 1;
